@@ -1060,6 +1060,84 @@ def lean_int(v):
         return f'-(2 ^ {k})' if (1 << k) == -v else f'-{-v}'
     return str(v)
 
+def gen_rateenc(repo):
+    """stream.rs `TryFrom<u32> for SampleRate<u32>` (how the writers choose the header's sample-rate code) and the
+    stream writer's refusal of rates that only STREAMINFO could carry (encode.rs)"""
+    n = ' '.join(strip_comments(open(os.path.join(repo, 'src/stream.rs')).read()).split())
+    e = ' '.join(strip_comments(open(os.path.join(repo, 'src/encode.rs')).read()).split())
+    out = ['/- GENERATED by tools/translate.py from src/stream.rs (TryFrom<u32> for SampleRate<u32>) and src/encode.rs (FlacStreamWriter::write) — do not edit -/', 'namespace Flac.Gen', '']
+    m = re.search(r'impl TryFrom<u32> for SampleRate<u32> \{ type Error = Error; fn try_from\(sample_rate: u32\) -> Result<Self, Error> \{ match sample_rate \{ (.*?) _ => Err\(Error::InvalidSampleRate\), \} \} \}', n)
+    if not m:
+        raise ExtractError('TryFrom<u32> for SampleRate<u32>: expected a match on sample_rate ending in `_ => Err(Error::InvalidSampleRate)`')
+    body = m.group(1)
+    pairs = re.findall(r'(.+?) => Ok\(Self::(\w+)(?:\(rate\))?\),', body)
+    if re.sub(r'(.+?) => Ok\(Self::(\w+)(?:\(rate\))?\),', '', body).strip():
+        raise ExtractError('SampleRate::try_from: an arm that is not `pattern => Ok(Self::Variant[(rate)])`')
+    fixed, guards, seen_guard = [], [], False
+    def bound(t):
+        t = t.strip()
+        if t == 'u8::MAX as u32': return '255'
+        if t == 'u16::MAX as u32': return '65535'
+        mm = re.fullmatch(r'1 << (\d+)', t)
+        if mm: return f'2 ^ {mm.group(1)}'
+        if re.fullmatch(r'\d+', t): return t
+        raise ExtractError(f'SampleRate::try_from: bound `{t}` not understood')
+    cls = {'KHz': 1, 'DHz': 2, 'Hz': 3, 'Streaminfo': 4}
+    for pat, var in pairs:
+        pat = pat.strip()
+        if re.fullmatch(r'\d+', pat):
+            if seen_guard:
+                raise ExtractError('SampleRate::try_from: a literal arm follows a guarded arm')
+            if var != f'Hz{pat}':
+                raise ExtractError(f'SampleRate::try_from: literal {pat} maps to {var}')
+            fixed.append(int(pat)); continue
+        seen_guard = True
+        if var not in cls:
+            raise ExtractError(f'SampleRate::try_from: unknown variant {var}')
+        mm = re.fullmatch(r'rate if \(rate % (\d+)\) == 0 && \(rate / (\d+)\) < (.+)', pat)
+        if mm and mm.group(1) == mm.group(2):
+            guards.append((cls[var], f'rate % {mm.group(1)} == 0 && decide (rate / {mm.group(1)} < {bound(mm.group(3))})')); continue
+        mm = re.fullmatch(r'rate if rate < (.+)', pat)
+        if mm:
+            guards.append((cls[var], f'decide (rate < {bound(mm.group(1))})')); continue
+        raise ExtractError(f'SampleRate::try_from: guard `{pat}` not understood')
+    if not fixed or not guards:
+        raise ExtractError('SampleRate::try_from: no arms found')
+    out.append('/-- `TryFrom<u32> for SampleRate<u32>`: the rates with a variant of their own, in source order -/\n'
+               f'def encRateLiterals : List Nat := [{", ".join(map(str, fixed))}]\n')
+    body = '  if encRateLiterals.contains rate then some 0\n'
+    for c, g in guards:
+        body += f'  else if {g} then some {c}\n'
+    body += '  else none'
+    out.append('/-- `TryFrom<u32> for SampleRate<u32>`: the class of variant chosen for a rate - 0 = a literal of the table, 1 = `KHz`, 2 = `DHz`, 3 = `Hz`,\n'
+               '    4 = `Streaminfo` (no header field: the rate is only in STREAMINFO), none = `InvalidSampleRate`; the guards in source order -/\n'
+               f'def encRateClass (rate : Nat) : Option Nat :=\n{body}\n')
+    refuses = 'let sample_rate: SampleRate<u32> = sample_rate.try_into().and_then(|rate| match rate { SampleRate::Streaminfo(_) => Err(Error::NonSubsetSampleRate), rate => Ok(rate), })?;' in e
+    accepts = 'let sample_rate: SampleRate<u32> = sample_rate.try_into()?;' in e
+    if refuses == accepts:
+        raise ExtractError('FlacStreamWriter::write: the sample-rate conversion has neither known shape')
+    out.append('/-- `FlacStreamWriter::write` refuses a rate whose variant is `Streaminfo` (a raw stream has no STREAMINFO to carry it) -/\n'
+               f'def streamWriterRefusesStreaminfoRate : Bool := {"true" if refuses else "false"}\n')
+    m = re.search(r'impl From<SignedBitCount<32>> for BitsPerSample \{ (?:#\[inline\] )?fn from\(bps: SignedBitCount<32>\) -> Self \{ match bps \{ (.*?) bps => Self::Streaminfo\(bps\), \} \} \}', n)
+    if not m:
+        raise ExtractError('From<SignedBitCount<32>> for BitsPerSample: expected literal arms followed by `bps => Self::Streaminfo(bps)`')
+    arms = re.findall(r'Self::BPS(\d+) => Self::Bps(\d+),', m.group(1))
+    if re.sub(r'Self::BPS(\d+) => Self::Bps(\d+),', '', m.group(1)).strip() or any(a != b for a, b in arms) or not arms:
+        raise ExtractError('From<SignedBitCount<32>> for BitsPerSample: an arm that is not `Self::BPSn => Self::Bpsn`')
+    for a, _ in arms:
+        if not re.search(r'const BPS' + a + r': SignedBitCount<32> = SignedBitCount::new::<' + a + r'>\(\);', n):
+            raise ExtractError(f'BitsPerSample::BPS{a}: the constant is not SignedBitCount::new::<{a}>()')
+    out.append('/-- `From<SignedBitCount<32>> for BitsPerSample`: the depths with a header code of their own (every other depth becomes `Streaminfo`) -/\n'
+               f'def encBpsLiterals : List Nat := [{", ".join(a for a, _ in arms)}]\n')
+    refuses = 'let header_bits_per_sample = match BitsPerSample::from(bits_per_sample) { BitsPerSample::Streaminfo(_) => return Err(Error::NonSubsetBitsPerSample), bps => bps, };' in e
+    accepts = 'let header_bits_per_sample = BitsPerSample::from(bits_per_sample);' in e
+    if refuses == accepts:
+        raise ExtractError('FlacStreamWriter::write: the bits-per-sample conversion has neither known shape')
+    out.append('/-- `FlacStreamWriter::write` refuses a depth whose variant is `Streaminfo` -/\n'
+               f'def streamWriterRefusesStreaminfoBps : Bool := {"true" if refuses else "false"}\n')
+    out.append('end Flac.Gen')
+    return '\n'.join(out) + '\n'
+
 def gen_par(repo):
     """facts about the parallel feature of encode.rs (C18)"""
     n = ' '.join(strip_comments(open(os.path.join(repo, 'src/encode.rs')).read()).split())
@@ -1317,6 +1395,7 @@ GENERATORS = [
     ('Resid.lean', 'write_residuals facts behind the constant-block clause', gen_resid),
     ('CrcIo.lean', 'which bytes CrcWriter::write / CrcReader::read checksum', gen_crcio),
     ('ByteOrder.lean', 'byteorder.rs 24-bit conversions and bytes_to_le', gen_byteorder),
+    ('RateEnc.lean', 'SampleRate::try_from and the stream writer rate rule', gen_rateenc),
     ('ShapesHdr.lean', 'frame header shapes', gen_shapes_hdr),
     ('ShapesRd.lean', 'reader shapes', gen_shapes_rd),
     ('ShapesEnc.lean', 'encoder-side shapes', gen_shapes_enc),
